@@ -20,7 +20,7 @@ from hypothesis import strategies as st
 from .. import gen, loader, universe
 from ..engine import Outcome, Prop
 
-ENCODINGS = ["utf-8", "utf-8", "utf-8-sig", "utf-16", "latin-1", "cp1252"]
+ENCODINGS = ["utf-8", "utf-8", "utf-8-sig", "utf-16", "latin-1", "cp1252", "utf-32", "utf-16-be", "utf-32-le"]
 EXTS = ["sql", "ddl", "hql", "bql"]
 DECOY_EXTS = ["txt", "json", "md", "sqlx", "bak"]
 SNIPPETS = ["-- résumé of the table ü\n", "-- plain ascii comment\n", "", "", "-- naïve £ sign\n"]
@@ -105,8 +105,8 @@ def jsonable(x):
 
 class C19(Prop):
     id = "C19"
-    rule = ("case = (api) generated script (+ optional non-ASCII comment line) written with one of 5 encodings (utf-8, utf-8-sig, "
-            "utf-16, latin-1, cp1252) under a generated file name (plain, multi-dot, no extension, hidden) in 0..2 dotted "
+    rule = ("case = (api) generated script (+ optional non-ASCII comment line) written with one of 8 encodings (utf-8, utf-8-sig, "
+            "utf-16, utf-16-be, utf-32, utf-32-le, latin-1, cp1252) under a generated file name (plain, multi-dot, no extension, hidden) in 0..2 dotted "
             "sub-directories; parse_from_file(path, encoding, parser_settings, output_mode / group_by_type / json_dump [, dump=True, "
             "dump_path = missing | nested missing | existing | existing with a stale output file | relative]) vs the in-memory API; "
             "or (cli) the sdp command on one file or on a directory of 1..4 .sql/.ddl/.hql/.bql files plus decoys, with -t / "
